@@ -221,6 +221,17 @@ def spec_call(ex, st, e, cx, k):
         kq = z3.Const('k!de', T.sort_of(v.ty.args[0]))
         dom = ex.dict_dom(st, v)
         return k(st, SV(BOOL, z3.ForAll([kq], z3.Not(z3.Select(dom, kq)), patterns=[z3.Select(dom, kq)])))
+    if nm in ('words_of', 're_sub_words'):
+        vs = [ex.pure(st, a, cx) for a in e.args]
+        if nm == 'words_of':
+            # the whole-word identifiers of a text: the matches of \b(SYMBOL_PATTERN)\b (trusted library semantics)
+            pat = z3.Concat(z3.StringVal('\\b('), vs[0].z, z3.StringVal(')\\b'))
+            ms = ex.uf('re_matches', z3.StringSort(), z3.StringSort(), z3.ArraySort(z3.StringSort(), z3.BoolSort()))
+            return k(st, SV(T.mset(STR), ms(z3.simplify(pat), vs[1].z)))
+        esc = ex.uf('re_escape', z3.StringSort(), z3.StringSort())
+        pat = z3.Concat(z3.StringVal('\\b'), esc(vs[0].z), z3.StringVal('\\b'))
+        f_ = ex.uf('re_sub', z3.StringSort(), z3.StringSort(), z3.StringSort(), z3.StringSort())
+        return k(st, SV(STR, f_(pat, vs[1].z, vs[2].z)))
     if nm == 'str_lower':
         v = ex.pure(st, e.args[0], cx)
         return k(st, SV(STR, ex.uf('str_lower', z3.StringSort(), z3.StringSort())(v.z)))
